@@ -861,6 +861,11 @@ func (in *instr) stmt(s ast.Stmt, withY bool) []ast.Stmt {
 				}
 			}
 			if in.isTimeSleep(call) {
+				// a sleep of zero or negative length still takes time on a real machine; on the fake clock it
+				// would take none, and a loop polling a deadline with such sleeps would never see it pass
+				if len(call.Args) == 1 {
+					call.Args[0] = simCall("SleepDur", call.Args[0])
+				}
 				tk := in.tmp("tk")
 				pre = append(pre, &ast.AssignStmt{Lhs: []ast.Expr{tk}, Tok: token.DEFINE, Rhs: []ast.Expr{simCall("B", in.site(pos, "sleep"))}})
 				post = append(post, &ast.ExprStmt{X: simCall("U", tk)})
